@@ -192,6 +192,8 @@ def main(run: Run):
     patterns_l1.add_to(run)
     from . import busadd_l1
     busadd_l1.add_to(run, ['csr_decoder_add'])
+    from . import decoder_l1
+    decoder_l1.add_to(run, "csr")
     from . import validation
     validation.add_to(run, ['csr_decoder_add'])
     return run.finish(
